@@ -467,7 +467,7 @@ func TestC17ModelCrossCheck(t *testing.T) {
 	script := filepath.Join(os.Getenv("VERIF_VERIF_DIR"), "tools", "c17_jsonschema.py")
 	if err != nil || os.Getenv("VERIF_VERIF_DIR") == "" {
 		rec.Label("env:python-jsonschema-unavailable-skipped")
-		t.Skip("python3-vt not available")
+		t.Skip("VERIF-ENV-SKIP python3-vt not available")
 	}
 	dump := filepath.Join(t.TempDir(), "dump.jsonl")
 	f, err := os.Create(dump)
@@ -490,7 +490,7 @@ func TestC17ModelCrossCheck(t *testing.T) {
 	out, err := exec.Command(py, script, filepath.Join(repoDir(), "schema"), dump).Output()
 	if err != nil {
 		rec.Label("env:python-jsonschema-unavailable-skipped")
-		t.Skipf("python jsonschema could not run: %v", err)
+		t.Skipf("VERIF-ENV-SKIP python jsonschema could not run: %v", err)
 	}
 	var res struct {
 		N             int               `json:"n"`
